@@ -399,7 +399,7 @@ func c01Proportion(c *core.Ctx, r *core.Rand, ver string) {
 func init() {
 	core.Register(&core.Check{
 		ID:   "C01",
-		Rule: "cases = known-finding witnesses ++ per index one of: hostile G3 input (prefix of a corpus snippet or generated program at every cut point class, token soup over lexically loaded fragments, byte mutations, splices, random bytes), every torture/corpus snippet once, a k-fold replication series (hook-step proportionality), an adversarial size-parametrised shape measured at n and 8n (CPU scaling); each input is parsed under one 5.x and one 7.x version (plus sometimes a third or the nil version) x {callback, nil callback}; non-trivial = non-empty input; distinct by input bytes",
+		Rule: "cases = known-finding witnesses ++ per index one of: hostile G3 input (prefix of a corpus snippet or generated program at every cut point class, token soup over lexically loaded fragments, byte mutations, splices, random bytes), every torture/corpus snippet once, the complete enumeration torture snippet x position x one inserted byte of 20 lexically loaded bytes, a k-fold replication series (hook-step proportionality), an adversarial size-parametrised shape measured at n and 8n (CPU scaling); each input is parsed under one 5.x and one 7.x version (plus sometimes a third or the nil version) x {callback, nil callback}; non-trivial = non-empty input; distinct by input bytes",
 		Assumptions: []string{
 			"the verif hooks sit on every non-advancing path of the lexer (setTokenPosition, addFreeFloatingToken, ungetCnt, call, ret) and on token delivery in both parsers; budgets 8n+64 steps / n+8 tokens",
 			"Go turns every out-of-bounds access into a panic, which the monitor recovers and attributes to the first repository frame",
@@ -408,7 +408,7 @@ func init() {
 		Env:     func(p core.Params) []string { return []string{"VERIF_STATS=1"} },
 		CaseCPU: 60,
 		Plan: func(p core.Params) int {
-			return len(gen.Corpus()) + c01CtxCases(p) + p.Pick(90000, 4000000)
+			return len(gen.Corpus()) + c01CtxCases(p) + gen.InsCount() + p.Pick(90000, 4000000)
 		},
 		Exhaustive: func(p core.Params) bool { return false },
 		Run: func(c *core.Ctx, idx int) {
@@ -435,7 +435,17 @@ func init() {
 				}
 				return
 			}
-			idx += len(cor) - c01CtxCases(c.P)
+			idx -= c01CtxCases(c.P)
+			if idx < gen.InsCount() {
+				// snippet x position x inserted byte: complete in both tiers
+				vs := []string{"5.6", "7.4"}
+				if idx%5 == 0 {
+					vs = []string{"5.4", "7.2"}
+				}
+				c01Case(c, gen.InsInput(idx), vs, "snippet-x-position-x-inserted-byte")
+				return
+			}
+			idx += len(cor) - gen.InsCount()
 			r := core.NewRand(c.P.Seed, "C01", idx)
 			switch k := idx % 400; {
 			case k == 7:
